@@ -1,3 +1,5 @@
+import ast
+
 import pyparsing
 from miasm.expression.expression import ExprInt, ExprId, ExprLoc, ExprSlice, \
     ExprMem, ExprCond, ExprCompose, ExprOp, ExprAssign, LocKey
@@ -35,11 +37,17 @@ T_INF = pyparsing.Suppress("<")
 T_SUP = pyparsing.Suppress(">")
 
 
-string_quote = pyparsing.QuotedString(quoteChar="'", escChar='\\', escQuote='\\')
-string_dquote = pyparsing.QuotedString(quoteChar='"', escChar='\\', escQuote='\\')
+# Strings are the Python literals produced by repr(): keep the quotes and let
+# Python decode the escape sequences (\\, \', \", \n, \xNN, \uNNNN, ...)
+string_quote = pyparsing.QuotedString(quoteChar="'", escChar='\\',
+                                      unquoteResults=False)
+string_dquote = pyparsing.QuotedString(quoteChar='"', escChar='\\',
+                                       unquoteResults=False)
 
 
-string = string_quote | string_dquote
+string = (string_quote | string_dquote).setParseAction(
+    lambda t: ast.literal_eval(t[0])
+)
 
 expr = pyparsing.Forward()
 
